@@ -204,6 +204,24 @@ impl ZarrChainStorage {
         counts
     }
 
+    /// `(warmup events, sampling events)` per event dimension.
+    ///
+    /// While the chain is still in warmup (no sampling draw was recorded yet, e.g. a run that
+    /// was aborted early or has no sampling draws) the current counts belong to the warmup arrays.
+    fn event_counts_by_phase(&self) -> HashMap<String, (u64, u64)> {
+        self.event_counts()
+            .into_iter()
+            .map(|(dim, n)| {
+                if self.last_sample_was_warmup {
+                    (dim, (n, 0))
+                } else {
+                    let w = self.warmup_event_counts.get(&dim).copied().unwrap_or(0);
+                    (dim, (w, n))
+                }
+            })
+            .collect()
+    }
+
     fn push_param(&mut self, name: &str, value: Value, is_warmup: bool) -> Result<()> {
         if ["draw", "chain"].contains(&name) {
             return Ok(());
@@ -285,7 +303,7 @@ impl ChainStorage for ZarrChainStorage {
 
     /// Flush remaining samples and finalize storage
     fn finalize(self) -> Result<Self::Finalized> {
-        let sample_counts: HashMap<String, u64> = self.event_counts();
+        let counts = self.event_counts_by_phase();
 
         for (key, mut buffer) in self.draw_buffers.into_iter() {
             if let Some(chunk) = buffer.reset() {
@@ -308,34 +326,11 @@ impl ChainStorage for ZarrChainStorage {
             }
         }
 
-        let counts = self
-            .event_dim_of_stat
-            .values()
-            .collect::<std::collections::HashSet<_>>()
-            .into_iter()
-            .map(|dim| {
-                let w = self
-                    .warmup_event_counts
-                    .get(dim.as_str())
-                    .copied()
-                    .unwrap_or(0);
-                let s = sample_counts.get(dim.as_str()).copied().unwrap_or(0);
-                (dim.clone(), (w, s))
-            })
-            .collect();
         Ok(counts)
     }
 
     fn inspect(&self) -> Result<Option<Self::Finalized>> {
-        let mut counts = HashMap::new();
-        for (dim, s) in self.event_counts() {
-            let w = self
-                .warmup_event_counts
-                .get(dim.as_str())
-                .copied()
-                .unwrap_or(0);
-            counts.insert(dim, (w, s));
-        }
+        let counts = self.event_counts_by_phase();
         Ok(Some(counts))
     }
 
